@@ -9,7 +9,7 @@
 const char *harness_name = "c08_regp_emit";
 
 static struct rp_h A, B; /* emitter, peer */
-static unsigned char pay[17000], raw[17100], wire[35000];
+static unsigned char pay[150000], raw[150100], wire[300300];
 
 enum { E_RD8, E_RD16, E_WR8, E_WR16, E_ACK, E_ACK_EMPTY, E_CODE1, /* ... E_CODE11 */ E_META = E_CODE1 + 11, NEMIT };
 
@@ -245,9 +245,41 @@ u_big(uint64_t idx, void *arg)
     vh_sig(0x08100000ull ^ idx);
 }
 
+/* payloads of 2^16 octets and more, and of 2^16 words and more */
+static void
+u_huge(uint64_t idx, void *arg)
+{
+    (void)arg;
+    vh_rng rg;
+    vh_unit_rng(&rg, "huge", idx);
+    int serial = (int)(idx & 1), mem16 = (int)(idx >> 1) & 1;
+    static const size_t octets[] = { 65534, 65535, 65536, 65537, 65538, 131070, 131072, 140002 };
+    size_t n = octets[(idx >> 2) % 8];
+    vh_arena_reset();
+    rp_setup(&A, serial, mem16, 256);
+    rp_setup(&B, serial, mem16, 300000);
+    fill_payload(&rg, n);
+    VH_CASE4(idx, n, 0, 0);
+    one_emit(E_WR8, serial, mem16, (uint16_t)idx, 0xc0, n, RT_WRITE_REQ, 0, &rg);
+    vh_arena_reset();
+    B.nblk = 0;
+    if ((n & 1) == 0)
+        one_emit(E_WR16, serial, mem16, (uint16_t)idx, 0xdb, n / 2, RT_WRITE_REQ, 0, &rg);
+    vh_arena_reset();
+    B.nblk = 0;
+    if (!mem16 || (n & 1) == 0)
+        one_emit(E_ACK, serial, mem16, (uint16_t)idx, 1, mem16 ? n / 2 : n, RT_READ_REQ, 0, &rg);
+    VH_COUNT("emission with 65534 or more payload octets");
+    vh_sig(0x08200000ull ^ idx);
+}
+
 void
 harness_run(void)
 {
+    for (uint64_t i = 0; i < 32; i++)
+        if (vh_tier || (i >> 2) % 8 == 2 || (i >> 2) % 8 == 6 || i % 5 == 0)
+            vh_unit("huge", i, u_huge, NULL);
+    vh_require("emission with 65534 or more payload octets");
     for (uint64_t i = 0; i < (vh_tier ? 24000u : 160u); i++)
         vh_unit("emit", i, u_emit, NULL);
     for (uint64_t i = 0; i < (vh_tier ? 64u : 8u); i++)
